@@ -1,6 +1,7 @@
 package main
 
 import (
+	"context"
 	"flag"
 
 	"golang.org/x/tools/go/ssa"
@@ -98,6 +99,7 @@ func cmdVerify(args []string) {
 				fmt.Printf("   VACUITY? %s: %s -> %s [%s %.2fs]\n", p.Name, p.Desc, p.Result, p.Solver, p.Time)
 				if p.Result == "unsat" {
 					bad++
+					explainVacuity(r, p)
 				}
 			}
 		}
@@ -190,5 +192,44 @@ func explainObligation(r *FnResult, o *Obligation, opt solveOpts) {
 			}
 			fmt.Printf("           part %d/%d %s: %s\n", i+1, len(parts), o2.Result, s)
 		}
+	}
+}
+
+// explainVacuity: binary search for the first assumption that makes the set contradictory.
+func explainVacuity(r *FnResult, p *Obligation) {
+	tr := r.tr
+	check := func(n int, withReach bool) bool {
+		var as []*Term
+		for _, a := range tr.assumes[:n] {
+			as = append(as, a.T)
+		}
+		if withReach {
+			as = append(as, p.Reach)
+		}
+		g, _, _ := tr.f.groundQuery(as)
+		sc := tr.f.Script(g, nil)
+		res := runSolver(context.Background(), solvers[0], sc.Text, 5000, sc.Quant, false)
+		return res.res == "unsat"
+	}
+	if !check(p.NAssume, false) {
+		fmt.Printf("           assumptions alone are consistent; contradiction involves the reach condition of the exit\n")
+		return
+	}
+	lo, hi := 0, p.NAssume
+	for lo < hi {
+		mid := (lo + hi) / 2
+		if check(mid, false) {
+			hi = mid
+		} else {
+			lo = mid + 1
+		}
+	}
+	if lo > 0 && lo <= len(tr.assumes) {
+		a := tr.assumes[lo-1]
+		s := tr.f.Show(a.T)
+		if len(s) > 600 {
+			s = s[:600] + "..."
+		}
+		fmt.Printf("           contradiction appears with assumption #%d: %s\n             %s\n", lo, a.Why, s)
 	}
 }
